@@ -771,6 +771,153 @@ def main(run: core.Run) -> None:
         if own != sorted(m["name"] for m in c["methods"]):
             diff = set(own) ^ {m["name"] for m in c["methods"]}
             tie_broken.append(f"{c['name']}: imported class defines {sorted(diff)} differently from the parsed source")
+    # ---------------- T9: HISTORIES of Opset(...) constructions and dynamic lookups in this one process
+    # (the real class-level Opset.cache and anything else the process remembers persist across histories: the answers
+    #  must still be the function of (domain, version, name) the model's state machine computes from an empty cache)
+    Opset = real.values.Opset
+
+    class UserOpset(Opset):  # a user-defined subclass shares Opset.cache, keyed by class
+        pass
+
+    HDOMS = ["", "ai.onnx.ml", "ai.onnx.preview", "ai.onnx.preview.training", "my.domain", "com.microsoft"]
+    names_of = {d: sorted({sc["name"] for sc in data["schemas"] if sc["domain"] == d}) for d in HDOMS}
+    firsts = {}
+    for sc in data["schemas"]:
+        firsts.setdefault((sc["domain"], sc["name"]), []).append(sc["since"])
+    late_ops = sorted((d, n, sorted(v)) for (d, n), v in firsts.items() if min(v) > 1 or len(v) > 1)
+    gen_classes = [(c["name"], c["domain"], c["version"]) for c in data["classes"] if c["name"] in insts]
+
+    def h_new_base(cls_obj, d, v):
+        return ("N", cls_obj, d, v)
+
+    def run_history(cmds):
+        """Returns (driver tokens, real responses, oracle problems)."""
+        toks, resps, probs = [], [], []
+        first_bad = [None]
+
+        class _P(list):
+            def append(self, x):  # remember where the first problem occurred
+                if first_bad[0] is None:
+                    first_bad[0] = len(toks)
+                super().append(x)
+
+        probs = _P()
+        seen: dict[int, int] = {}
+        objs: list = []
+        want: list = []  # (d, v) requested at construction, per first-sight index
+        for cmd in cmds:
+            if cmd[0] == "N":
+                _, cls_obj, d, v = cmd
+                generated = cls_obj not in (Opset, UserOpset)
+                obj = cls_obj() if generated else cls_obj(d, v)
+                toks.append(f"N:{enc(cls_obj.__name__)}:{enc(d)}:{v}")
+                if id(obj) not in seen:
+                    seen[id(obj)] = len(objs)
+                    objs.append(obj)
+                    want.append((d, v))
+                k = seen[id(obj)]
+                resps.append(f"i{k}:{enc(obj.domain)}:{obj.version}")
+                if type(obj) is not cls_obj or (obj.domain, obj.version) != (d, v):
+                    probs.append(f"{cls_obj.__name__}({d!r}, {v}) returned {obj!r} of type {type(obj).__name__}")
+                stats["hist_new_" + ("generated" if generated else cls_obj.__name__)] += 1
+            else:
+                kind, k, n = cmd
+                if k >= len(objs):
+                    continue
+                obj = objs[k]
+                d, v = want[k]
+                truth = real.get_schema(n, v, d)
+                tk = None if truth is None else (truth.name, int(truth.since_version), truth.domain)
+                toks.append(f"{kind}:{k}:{enc(n)}")
+                if kind == "I":
+                    r0 = obj[n]
+                    got = None if r0 is None else (r0.op_schema.name, int(r0.op_schema.since_version), r0.op_schema.domain)
+                    resps.append("s-" if got is None else f"s{enc(got[0])},{got[1]},{enc(got[2])}")
+                    if got != tk:
+                        probs.append(f"{obj!r}[{n!r}] -> {got}, get_schema({n!r}, {v}, {d!r}) -> {tk}")
+                elif kind == "C":
+                    got = n in obj
+                    resps.append("bT" if got else "bF")
+                    if got != (tk is not None):
+                        probs.append(f"{n!r} in {obj!r} -> {got}, get_schema({n!r}, {v}, {d!r}) -> {tk}")
+                else:
+                    try:
+                        r0 = Opset.__getattr__(obj, n)
+                        got = (r0.op_schema.name, int(r0.op_schema.since_version), r0.op_schema.domain)
+                        resps.append(f"s{enc(got[0])},{got[1]},{enc(got[2])}")
+                    except AttributeError:
+                        got = None
+                        resps.append("E")
+                    if got != tk:
+                        probs.append(f"Opset.__getattr__({obj!r}, {n!r}) -> {got}, get_schema({n!r}, {v}, {d!r}) -> {tk}")
+                stats["hist_" + {"I": "getitem", "C": "contains", "A": "getattr"}[kind] + ("_hit" if tk else "_miss")] += 1
+                stats["hist_domain_" + (d or "default")] += 1
+        return toks, resps, (list(probs), first_bad[0])
+
+    histories = []
+    # directed: probe an operator below its first version / across versions, in both orders, base and generated classes
+    for d, n, vs in late_ops:
+        lo, hi = max(1, vs[0] - 1), vs[-1]
+        a = [h_new_base(Opset, d, lo), ("C", 0, n), ("I", 0, n), ("A", 0, n), h_new_base(Opset, d, hi), ("C", 1, n), ("I", 1, n), ("A", 1, n),
+             ("C", 0, n), ("I", 0, n), h_new_base(Opset, d, lo), h_new_base(UserOpset, d, hi), ("I", 2, n)]
+        b = [h_new_base(Opset, d, hi), ("I", 0, n), h_new_base(Opset, d, lo), ("I", 1, n), ("C", 1, n), ("I", 0, n), ("C", 0, n), ("A", 0, n)]
+        histories += [a, b]
+        stats["hist_directed_old_then_new"] += 1
+        stats["hist_directed_new_then_old"] += 1
+    # directed: the same name across domains, and generated instance vs base instance of the same (domain, version)
+    for cn, d, v in gen_classes:
+        other = [x for x in HDOMS if x != d]
+        nm = run.rng.choice(names_of[d]) if names_of[d] else "Abs"
+        od = run.rng.choice(other)
+        histories.append([h_new_base(type(insts[cn]), d, v), h_new_base(Opset, od, v), ("C", 1, nm), ("I", 1, nm), ("C", 0, nm), ("I", 0, nm),
+                          h_new_base(Opset, d, v), ("I", 2, nm), ("A", 2, nm), h_new_base(type(insts[cn]), d, v), ("C", 1, nm)])
+        stats["hist_directed_cross_domain"] += 1
+    # random
+    n_hist = run.size(150, 1500)
+    for _ in range(n_hist):
+        L = run.rng.randint(4, 30)
+        cmds, ninst = [], 0
+        pool_d = run.rng.sample(HDOMS, run.rng.randint(1, 3))
+        pool_n = []
+        for d in pool_d + [run.rng.choice(HDOMS)]:
+            if names_of[d]:
+                pool_n += run.rng.sample(names_of[d], min(3, len(names_of[d])))
+        pool_n += ["NoSuchOp", "abs"]
+        for _ in range(L):
+            if ninst == 0 or run.rng.random() < 0.3:
+                r = run.rng.random()
+                if r < 0.25:
+                    cn, d, v = run.rng.choice(gen_classes)
+                    cmds.append(h_new_base(type(insts[cn]), d, v))
+                else:
+                    d = run.rng.choice(pool_d)
+                    v = run.rng.choice([1, 2, 3, 4, 5]) if d != "" and run.rng.random() < 0.7 else run.rng.randint(1, 27)
+                    cmds.append(h_new_base(UserOpset if r > 0.9 else Opset, d, v))
+                ninst += 1
+            else:
+                cmds.append((run.rng.choice("ICA"), run.rng.randrange(ninst), run.rng.choice(pool_n)))
+        histories.append(cmds)
+    hist_lines, hist_exp, hist_fail = [], [], []
+    for cmds in histories:
+        toks, resps, (probs, bad_at) = run_history(cmds)
+        hist_lines.append("hist " + " ".join(toks))
+        hist_exp.append(" ".join(resps))
+        if probs and len(hist_fail) < 5:
+            hist_fail.append((toks[: (bad_at or len(toks))], probs))
+    stats["histories"] = len(histories)
+    stats["history_commands"] = sum(len(h) for h in histories)
+    if hist_fail:
+        toks, probs = hist_fail[0]
+        oracle_failures.append(("Opset", "<history>", probs[:3] + ["history: " + " ".join(
+            (lambda t: t[0] + ":" + ":".join(dec(int(x)) if i in ((1, 2) if t[0] == "N" else (2,)) else x for i, x in enumerate(t[2:].split(":"), 1)))(t)
+            for t in toks)]))
+    if drv is not None:
+        outs = drv.ask(hist_lines)
+        for ln, e, o in zip(hist_lines, hist_exp, outs):
+            if e != o:
+                tie_broken.append(f"history [{ln[:300]}]: real `{e[:200]}` vs model `{o[:200]}`")
+                break
+    lap("lookup histories (run before the per-cell lookups, so that a reported history is self-contained)")
     drv_lines: list[str] = []
     drv_expect: list[tuple[str, str, str]] = []
     junk = ["NoSuchOp", "abs", "Abs_", "", "__len__x"]
@@ -867,144 +1014,6 @@ def main(run: core.Run) -> None:
                 tie_broken.append(f"executed {cn}.{n} [{ln}]: real `{exp}` vs model eagerNode `{o}`")
 
     lap("real code on every cell")
-    # ---------------- T9: HISTORIES of Opset(...) constructions and dynamic lookups in this one process
-    # (the real class-level Opset.cache and anything else the process remembers persist across histories: the answers
-    #  must still be the function of (domain, version, name) the model's state machine computes from an empty cache)
-    Opset = real.values.Opset
-
-    class UserOpset(Opset):  # a user-defined subclass shares Opset.cache, keyed by class
-        pass
-
-    HDOMS = ["", "ai.onnx.ml", "ai.onnx.preview", "ai.onnx.preview.training", "my.domain", "com.microsoft"]
-    names_of = {d: sorted({sc["name"] for sc in data["schemas"] if sc["domain"] == d}) for d in HDOMS}
-    firsts = {}
-    for sc in data["schemas"]:
-        firsts.setdefault((sc["domain"], sc["name"]), []).append(sc["since"])
-    late_ops = sorted((d, n, sorted(v)) for (d, n), v in firsts.items() if min(v) > 1 or len(v) > 1)
-    gen_classes = [(c["name"], c["domain"], c["version"]) for c in data["classes"] if c["name"] in insts]
-
-    def h_new_base(cls_obj, d, v):
-        return ("N", cls_obj, d, v)
-
-    def run_history(cmds):
-        """Returns (driver tokens, real responses, oracle problems)."""
-        toks, resps, probs = [], [], []
-        seen: dict[int, int] = {}
-        objs: list = []
-        want: list = []  # (d, v) requested at construction, per first-sight index
-        for cmd in cmds:
-            if cmd[0] == "N":
-                _, cls_obj, d, v = cmd
-                generated = cls_obj not in (Opset, UserOpset)
-                obj = cls_obj() if generated else cls_obj(d, v)
-                toks.append(f"N:{enc(cls_obj.__name__)}:{enc(d)}:{v}")
-                if id(obj) not in seen:
-                    seen[id(obj)] = len(objs)
-                    objs.append(obj)
-                    want.append((d, v))
-                k = seen[id(obj)]
-                resps.append(f"i{k}:{enc(obj.domain)}:{obj.version}")
-                if type(obj) is not cls_obj or (obj.domain, obj.version) != (d, v):
-                    probs.append(f"{cls_obj.__name__}({d!r}, {v}) returned {obj!r} of type {type(obj).__name__}")
-                stats["hist_new_" + ("generated" if generated else cls_obj.__name__)] += 1
-            else:
-                kind, k, n = cmd
-                if k >= len(objs):
-                    continue
-                obj = objs[k]
-                d, v = want[k]
-                truth = real.get_schema(n, v, d)
-                tk = None if truth is None else (truth.name, int(truth.since_version), truth.domain)
-                toks.append(f"{kind}:{k}:{enc(n)}")
-                if kind == "I":
-                    r0 = obj[n]
-                    got = None if r0 is None else (r0.op_schema.name, int(r0.op_schema.since_version), r0.op_schema.domain)
-                    resps.append("s-" if got is None else f"s{enc(got[0])},{got[1]},{enc(got[2])}")
-                    if got != tk:
-                        probs.append(f"{obj!r}[{n!r}] -> {got}, get_schema({n!r}, {v}, {d!r}) -> {tk}")
-                elif kind == "C":
-                    got = n in obj
-                    resps.append("bT" if got else "bF")
-                    if got != (tk is not None):
-                        probs.append(f"{n!r} in {obj!r} -> {got}, get_schema({n!r}, {v}, {d!r}) -> {tk}")
-                else:
-                    try:
-                        r0 = Opset.__getattr__(obj, n)
-                        got = (r0.op_schema.name, int(r0.op_schema.since_version), r0.op_schema.domain)
-                        resps.append(f"s{enc(got[0])},{got[1]},{enc(got[2])}")
-                    except AttributeError:
-                        got = None
-                        resps.append("E")
-                    if got != tk:
-                        probs.append(f"Opset.__getattr__({obj!r}, {n!r}) -> {got}, get_schema({n!r}, {v}, {d!r}) -> {tk}")
-                stats["hist_" + {"I": "getitem", "C": "contains", "A": "getattr"}[kind] + ("_hit" if tk else "_miss")] += 1
-                stats["hist_domain_" + (d or "default")] += 1
-        return toks, resps, probs
-
-    histories = []
-    # directed: probe an operator below its first version / across versions, in both orders, base and generated classes
-    for d, n, vs in late_ops:
-        lo, hi = max(1, vs[0] - 1), vs[-1]
-        a = [h_new_base(Opset, d, lo), ("C", 0, n), ("I", 0, n), ("A", 0, n), h_new_base(Opset, d, hi), ("C", 1, n), ("I", 1, n), ("A", 1, n),
-             ("C", 0, n), ("I", 0, n), h_new_base(Opset, d, lo), h_new_base(UserOpset, d, hi), ("I", 2, n)]
-        b = [h_new_base(Opset, d, hi), ("I", 0, n), h_new_base(Opset, d, lo), ("I", 1, n), ("C", 1, n), ("I", 0, n), ("C", 0, n), ("A", 0, n)]
-        histories += [a, b]
-        stats["hist_directed_old_then_new"] += 1
-        stats["hist_directed_new_then_old"] += 1
-    # directed: the same name across domains, and generated instance vs base instance of the same (domain, version)
-    for cn, d, v in gen_classes:
-        other = [x for x in HDOMS if x != d]
-        nm = run.rng.choice(names_of[d]) if names_of[d] else "Abs"
-        od = run.rng.choice(other)
-        histories.append([h_new_base(type(insts[cn]), d, v), h_new_base(Opset, od, v), ("C", 1, nm), ("I", 1, nm), ("C", 0, nm), ("I", 0, nm),
-                          h_new_base(Opset, d, v), ("I", 2, nm), ("A", 2, nm), h_new_base(type(insts[cn]), d, v), ("C", 1, nm)])
-        stats["hist_directed_cross_domain"] += 1
-    # random
-    n_hist = run.size(150, 1500)
-    for _ in range(n_hist):
-        L = run.rng.randint(4, 30)
-        cmds, ninst = [], 0
-        pool_d = run.rng.sample(HDOMS, run.rng.randint(1, 3))
-        pool_n = []
-        for d in pool_d + [run.rng.choice(HDOMS)]:
-            if names_of[d]:
-                pool_n += run.rng.sample(names_of[d], min(3, len(names_of[d])))
-        pool_n += ["NoSuchOp", "abs"]
-        for _ in range(L):
-            if ninst == 0 or run.rng.random() < 0.3:
-                r = run.rng.random()
-                if r < 0.25:
-                    cn, d, v = run.rng.choice(gen_classes)
-                    cmds.append(h_new_base(type(insts[cn]), d, v))
-                else:
-                    d = run.rng.choice(pool_d)
-                    v = run.rng.choice([1, 2, 3, 4, 5]) if d != "" and run.rng.random() < 0.7 else run.rng.randint(1, 27)
-                    cmds.append(h_new_base(UserOpset if r > 0.9 else Opset, d, v))
-                ninst += 1
-            else:
-                cmds.append((run.rng.choice("ICA"), run.rng.randrange(ninst), run.rng.choice(pool_n)))
-        histories.append(cmds)
-    hist_lines, hist_exp, hist_fail = [], [], []
-    for cmds in histories:
-        toks, resps, probs = run_history(cmds)
-        hist_lines.append("hist " + " ".join(toks))
-        hist_exp.append(" ".join(resps))
-        if probs and len(hist_fail) < 5:
-            hist_fail.append((toks, probs))
-    stats["histories"] = len(histories)
-    stats["history_commands"] = sum(len(h) for h in histories)
-    if hist_fail:
-        toks, probs = hist_fail[0]
-        oracle_failures.append(("Opset", "<history>", probs[:3] + ["history: " + " ".join(
-            (lambda t: t[0] + ":" + ":".join(dec(int(x)) if i in ((1, 2) if t[0] == "N" else (2,)) else x for i, x in enumerate(t[2:].split(":"), 1)))(t)
-            for t in toks)]))
-    if drv is not None:
-        outs = drv.ask(hist_lines)
-        for ln, e, o in zip(hist_lines, hist_exp, outs):
-            if e != o:
-                tie_broken.append(f"history [{ln[:300]}]: real `{e[:200]}` vs model `{o[:200]}`")
-                break
-    lap("lookup histories")
     # ---------------- T4: _prepare_inputs
     prep_lines, prep_exp = [], []
     inst0 = next(iter(insts.values()))
@@ -1261,7 +1270,7 @@ def main(run: core.Run) -> None:
         )
         reported = True
     if oracle_failures:
-        oracle_failures.sort(key=lambda t: (t[1] != "<export>", len(t[2])))
+        oracle_failures.sort(key=lambda t: (t[1] != "<export>", t[1] != "<history>", len(t[2])))
         cn, n, probs = oracle_failures[0]
         run.violation(
             {"cls": cn, "op": n, "kind": "signature/forwarding on the imported class vs onnx.defs", "problems": probs,
